@@ -1487,6 +1487,49 @@ MA('C07', 'soft thresholding with the wrong sign', PROXF,
 MA('C07', 'box projection clips at the lower bound only', PROXF,
    'proximal_box_constraint.ProxOpBoxConstraint._call',
    'out.ufuncs.minimum(upper, out=out)', 'pass', 'IndicatorBox')
+# ---- C07-R6d: directional optimality ----------------------------------------
+MA('C07', 'simplex projection takes the first critical index', PROXF,
+   'proj_simplex', 'i = np.argwhere(crit >= 0).flatten().max()',
+   'i = np.argwhere(crit >= 0).flatten().min()', 'R6d')
+MA('C07', 'l1-ball projection loses the signs', PROXF, 'proj_l1',
+   'out *= v', 'pass', 'R6d')
+MA('C07', 'l1-ball projection ignores the weighting again (regression)',
+   PROXF, 'proj_l1',
+   "radius = radius / getattr(weighting, 'const', 1.0)", 'pass',
+   'weight 2')
+MA('C07', 'sup-norm proximal returns the projection itself', PROXF,
+   'proximal_linfty.ProximalLInfty._call', 'out.lincomb(-1, out, 1, x)',
+   'pass', 'LpNorm[p=inf')
+MA('C07', 'l2 proximal with half the step', PROXF,
+   'proximal_l2.ProximalL2._call',
+   'step = self.sigma * lam / x_norm',
+   'step = self.sigma * lam / (2 * x_norm)', 'L2Norm[', nth=0)
+MA('C07', 'l2 proximal never returns zero', PROXF,
+   'proximal_l2.ProximalL2._call', 'out.set_zero()',
+   'out.lincomb(0.5, x)', 'L2Norm[')
+MA('C07', 'Huber on vector fields shrinks by gamma', PROXF,
+   'proximal_huber.ProximalHuber._call',
+   'factor = 1 - self.sigma / norm',
+   'factor = 1 - gamma / norm', 'Huber[pspace')
+MA('C07', 'Huber on vector fields writes into the input (regression)',
+   PROXF, 'proximal_huber.ProximalHuber._call',
+   'xi.multiply(factor, out=out_i)', 'out_i.multiply(factor, xi)',
+   'Huber[pspace')
+MA('C07', 'nuclear norm proximal inverts zero singular values', DEFF,
+   'NuclearNorm.proximal.NuclearNormProximal._call',
+   'sinv[sinv != 0] = 1 / sinv[sinv != 0]', 'sinv = 1 / s',
+   'rank one')
+MA('C07', 'nuclear norm proximal thresholds at 2 sigma', DEFF,
+   'NuclearNorm.proximal.NuclearNormProximal._call',
+   'abss = np.abs(s) - (self.sigma - eps)',
+   'abss = np.abs(s) - 2 * (self.sigma - eps)', 'NuclearNorm[singular exp 1')
+MA('C07', 'nuclear norm proximal forgets the transpose', DEFF,
+   'NuclearNorm.proximal.NuclearNormProximal._call',
+   'V = Vt.swapaxes(-1, -2)', 'V = Vt', 'NuclearNorm[')
+MA('C07', 'group unit ball projection without the maximum', PROXF,
+   'proximal_convex_conj_l1_l2.ProximalConvexConjL1L2._call',
+   'denom.ufuncs.maximum(lam, out=denom)', 'pass',
+   'IndicatorGroupL1UnitBall[p=2')
 M('C15', 'element from a callable no longer owns its data (regression)', 'odl/discr/discr_space.py',
   "                sampled = np.array(sampled, copy=True)",
   "                pass", 'C15-R4c')
